@@ -247,6 +247,15 @@ def explore_cfg(cfg, acc, tier):
             orders.add(full["order"])
             positions.update((node, pos) for pos, node in enumerate(full["order"]))
             if relevant:
+                # the cells that own a pair were recognised under the default permutation answer. An implementation may let the permutation
+                # decide which of its Bernoulli cells are looked at (e.g. a p x p table masked by position[i] < position[j]): then, with all
+                # recognised cells above the threshold, edges remain under this answer - not the presupposed structure, so undecided here
+                # (the per-execution rules and the seed-range stage still apply)
+                none_low = table.get((perm, frozenset()))
+                if none_low is not None and none_low["edges"]:
+                    acc.extra["configs_structure_not_recognised"] += 1
+                    acc.undecided += 1
+                    continue
                 # sigma_perm: own pair of every cell, from the executions with exactly one cell low
                 sigma = {}
                 for c in relevant:
